@@ -46,6 +46,8 @@ type RTScn struct {
 	PublicIP   string `json:"public_ip"` // "", ok, fail, slow
 	SkipPrivate bool  `json:"skip_private"`
 	HTTP       bool   `json:"http"` // go through server.TracerouteHandler
+	// TrueSpelling: how an enabled boolean is written in the HTTP query ("" = "true"); any spelling strconv.ParseBool reads as true
+	TrueSpelling string `json:"true_spelling,omitempty"`
 	RawQuery   string `json:"raw_query,omitempty"`
 
 	// the world
@@ -330,6 +332,12 @@ func runRT(cfg vsched.Config, sc *RTScn, twice bool) *RTResult {
 			q := sc.RawQuery
 			if q == "" {
 				vals := url.Values{}
+				b := func(v bool) string {
+					if v && sc.TrueSpelling != "" {
+						return sc.TrueSpelling
+					}
+					return fmt.Sprint(v)
+				}
 				vals.Set("target", sc.Hostname)
 				vals.Set("protocol", sc.Protocol)
 				vals.Set("port", fmt.Sprint(port))
@@ -340,10 +348,10 @@ func runRT(cfg vsched.Config, sc *RTScn, twice bool) *RTResult {
 				if sc.Method != "" {
 					vals.Set("tcp-method", sc.Method)
 				}
-				vals.Set("ipv6", fmt.Sprint(sc.WantV6))
-				vals.Set("reverse-dns", fmt.Sprint(sc.ReverseDNS))
-				vals.Set("source-public-ip", fmt.Sprint(sc.PublicIP != ""))
-				vals.Set("skip-private-hops", fmt.Sprint(sc.SkipPrivate))
+				vals.Set("ipv6", b(sc.WantV6))
+				vals.Set("reverse-dns", b(sc.ReverseDNS))
+				vals.Set("source-public-ip", b(sc.PublicIP != ""))
+				vals.Set("skip-private-hops", b(sc.SkipPrivate))
 				q = vals.Encode()
 			}
 			srv := server.VerifNewServer(tr)
